@@ -221,7 +221,22 @@ func checkC18(c *Ctx) {
 			} else if isBoolConst(retValue(r, 0), true) {
 				nT++
 				// reached only through the "no replica has a block at this position" exit
-				if !trueOf(facts, func(k string) bool { return strings.HasPrefix(k, "phi@") }) {
+				// (a flag that stays true while no count was recorded, or the per-position count map being empty)
+				emptyCount := false
+				eachInstr(cc, func(in ssa.Instruction) {
+					mu, ok := in.(*ssa.MapUpdate)
+					if !ok {
+						return
+					}
+					mk, isMk := mu.Map.(*ssa.MakeMap)
+					if !isMk || !inLoop(mk.Block()) || !strings.HasPrefix(fl.K.Key(mu.Key), kBlockHash) {
+						return
+					}
+					if hasCmp(facts, "==", func(k string) bool { return strings.HasPrefix(k, "builtin len("+fl.K.Key(mk)+")") }, is("c:0")) {
+						emptyCount = true
+					}
+				})
+				if !emptyCount && !trueOf(facts, func(k string) bool { return strings.HasPrefix(k, "phi@") }) {
 					badTrue = append(badTrue, p.Pos(r.Pos()))
 				}
 			}
